@@ -27,6 +27,15 @@ func VerifDir() string {
 	return "/verif"
 }
 
+// OutDir is where evidence/ and replays/ are written (VERIF_OUT overrides it
+// so that mutation runs do not clobber the committed evidence).
+func OutDir() string {
+	if d := os.Getenv("VERIF_OUT"); d != "" {
+		return d
+	}
+	return VerifDir()
+}
+
 // KnownFinding is one entry of known_findings.json.
 type KnownFinding struct {
 	Status      string `json:"status"` // "known" | "fixed"
@@ -217,7 +226,7 @@ func (r *Run) Violations() int {
 }
 
 func (r *Run) writeReplay(sig, detail string, replay any) string {
-	dir := filepath.Join(VerifDir(), "replays", r.ID)
+	dir := filepath.Join(OutDir(), "replays", r.ID)
 	os.MkdirAll(dir, 0o755)
 	body, err := json.MarshalIndent(map[string]any{"property": r.ID, "sig": sig, "detail": detail, "case": replay}, "", " ")
 	if err != nil {
@@ -283,7 +292,7 @@ func (r *Run) Finish() int {
 		fmt.Fprintln(os.Stderr, "INTERNAL-ERROR: evidence marshal:", err)
 		return 2
 	}
-	dir := filepath.Join(VerifDir(), "evidence")
+	dir := filepath.Join(OutDir(), "evidence")
 	os.MkdirAll(dir, 0o755)
 	if err := os.WriteFile(filepath.Join(dir, r.ID+".json"), append(body, '\n'), 0o644); err != nil {
 		fmt.Fprintln(os.Stderr, "INTERNAL-ERROR: evidence write:", err)
